@@ -52,7 +52,7 @@ def run_real(ind, tokens):
     return [('tok', id(t)) if id(t) in ids else (t.type, None) for t in got]
 
 
-NLS = ['\n', '\n  ', '\n    ', '\n\t', '\n  \n', '\n    \n  ', '  # c', '\n \n\n    ', '\r\n  ']
+NLS = ['\n', '\n  ', '\n    ', '\n\t', '\n  \n', '\n    \n  ', '  # c', '\n \n\n    ', '\r\n  ', '\n \t', '\n\t ']       # incl. a space before a tab: width is #spaces + tab_len * #tabs, not tab stops
 KINDS = [('X', 'x'), ('LPAR', '('), ('RPAR', ')')] + [('_NL', s) for s in NLS]
 maxlen = 4 if tier == 'quick' else 5
 evals = distinct = 0
